@@ -100,6 +100,16 @@ class Translator:
         self.nbuf = 0
         self.integer_guards = []   # function:array pairs cast to float before the shear halving
         self.index_lists = {}      # name -> list, for the evidence / side lemmas
+        self.consts = {}           # module-level constants (evaluated, not pattern-matched)
+        self.module_funcs = {}     # module-level private helpers (inlined at the call site)
+        self.class_funcs = {}      # private methods of the mixin (inlined at the call site)
+        self.local_funcs = {}      # closures defined inside the function being translated
+        self.prefix = ''           # name prefix of the locals of a helper being inlined
+        self.depth = 0
+        self.ninline = 0
+        self.cur_lines = None
+        self.cur_outputs = None
+        self.widenings = []        # spellings accepted beyond the literal grammar (evidence)
 
     # ------------------------------------------------------------ helpers
     def err(self, node, msg):
@@ -129,15 +139,134 @@ class Translator:
         return int(c)
 
     def int_list(self, node):
-        if not isinstance(node, (ast.List, ast.Tuple)):
+        """index list: a list/tuple display of ints, or a constant expression that
+        evaluates to one (module-level table, list(TABLE), np.array(TABLE))"""
+        if isinstance(node, ast.Constant):
             return None
-        out = []
-        for e in node.elts:
-            c = self.const_num(e)
-            if c is None or c.denominator != 1 or c < 0:
-                return None
-            out.append(int(c))
-        return out
+        v = self.cval(node)
+        if not isinstance(v, (list, tuple)) or not all(type(x) is int and x >= 0 for x in v):
+            return None
+        if not isinstance(node, (ast.List, ast.Tuple)):
+            self.widen('index list taken from a constant expression')
+        return [int(x) for x in v]
+
+
+    NOCONST = object()
+
+    def cval(self, node, loc=None):
+        """value of a constant expression (literals, module-level constants,
+        tuple/list/range/slice/list()/tuple() of those), else NOCONST"""
+        N = self.NOCONST
+        loc = loc or {}
+        if isinstance(node, ast.Constant) and (node.value is None or isinstance(node.value, (int, float))):
+            return node.value
+        if isinstance(node, ast.UnaryOp) and isinstance(node.op, ast.USub):
+            v = self.cval(node.operand, loc)
+            return N if v is N or not isinstance(v, (int, float)) or isinstance(v, bool) else -v
+        if isinstance(node, ast.Name):
+            if node.id in loc:
+                return loc[node.id]
+            if node.id in getattr(self, 'local_names', ()):
+                return N
+            return self.consts.get(node.id, N)
+        if isinstance(node, (ast.Tuple, ast.List)):
+            vs = [self.cval(e, loc) for e in node.elts]
+            if any(v is N for v in vs):
+                return N
+            return tuple(vs) if isinstance(node, ast.Tuple) else list(vs)
+        if isinstance(node, ast.Call) and isinstance(node.func, ast.Name) and not node.keywords:
+            vs = [self.cval(a, loc) for a in node.args]
+            if any(v is N for v in vs):
+                return N
+            f = node.func.id
+            try:
+                if f == 'slice' and 1 <= len(vs) <= 3 and all(v is None or type(v) is int for v in vs):
+                    return slice(*vs)
+                if f == 'range' and 1 <= len(vs) <= 3 and all(type(v) is int for v in vs):
+                    r = range(*vs)
+                    return N if len(r) > 64 else tuple(r)
+                if f in ('list', 'tuple') and len(vs) == 1 and isinstance(vs[0], (list, tuple)):
+                    return list(vs[0]) if f == 'list' else tuple(vs[0])
+            except (TypeError, ValueError):
+                return N
+        if self.is_np(getattr(node, 'func', None), 'array') and isinstance(node, ast.Call) and \
+                len(node.args) == 1 and not node.keywords:
+            v = self.cval(node.args[0], loc)
+            if isinstance(v, (list, tuple)) and all(type(x) is int for x in v):
+                return list(v)
+        return N
+
+    def load_consts(self, tree):
+        """module-level `NAME = <constant expression>` (assigned exactly once)"""
+        count = {}
+        for n in tree.body:
+            if isinstance(n, ast.Assign):
+                for t in n.targets:
+                    for m in ast.walk(t):
+                        if isinstance(m, ast.Name):
+                            count[m.id] = count.get(m.id, 0) + 1
+            elif isinstance(n, (ast.AugAssign, ast.AnnAssign)) and isinstance(n.target, ast.Name):
+                count[n.target.id] = count.get(n.target.id, 0) + 2
+        for n in ast.walk(tree):
+            if isinstance(n, ast.Global):
+                for g in n.names:
+                    count[g] = count.get(g, 0) + 2
+        self.consts = {}
+        for n in tree.body:
+            if isinstance(n, ast.Assign) and len(n.targets) == 1 and isinstance(n.targets[0], ast.Name) \
+                    and count.get(n.targets[0].id) == 1:
+                v = self.cval(n.value)
+                if v is not self.NOCONST:
+                    self.consts[n.targets[0].id] = v
+
+    def const_to_ast(self, v, at):
+        """a constant value as an AST node (slices only make sense in index position)"""
+        if isinstance(v, slice):
+            c = lambda x: None if x is None else ast.copy_location(ast.Constant(x), at)   # noqa
+            return ast.copy_location(ast.Slice(lower=c(v.start), upper=c(v.stop), step=c(v.step)), at)
+        if isinstance(v, (list, tuple)):
+            return ast.copy_location(ast.List(elts=[self.const_to_ast(x, at) for x in v], ctx=ast.Load()), at)
+        return ast.copy_location(ast.Constant(v), at)
+
+    def elements(self, node, env):
+        """the element expressions of a list display: [a, b] | (a, b) | [e(x) for x in CONST]
+        (comprehension over a constant table / range unrolled)"""
+        if isinstance(node, (ast.List, ast.Tuple)):
+            return list(node.elts)
+        if isinstance(node, (ast.ListComp, ast.GeneratorExp)) and len(node.generators) == 1:
+            g = node.generators[0]
+            if not g.ifs and not g.is_async and isinstance(g.target, ast.Name) and g.target.id not in env:
+                seq = self.cval(g.iter)
+                if isinstance(seq, (list, tuple)):
+                    tr_ = self
+                    name = g.target.id
+
+                    class Sub(ast.NodeTransformer):
+                        def __init__(self, v):
+                            self.v = v
+
+                        def visit_Name(self, n):
+                            if n.id == name and isinstance(n.ctx, ast.Load):
+                                return tr_.const_to_ast(self.v, n)
+                            return n
+                    import copy
+                    self.widen('comprehension over a constant table unrolled')
+                    return [Sub(v).visit(copy.deepcopy(node.elt)) for v in seq]
+        return None
+
+    def widen(self, what):
+        w = f'{self.cur}: {what}'
+        if w not in self.widenings:
+            self.widenings.append(w)
+
+    def norm_index(self, s):
+        """index position: a module-level slice constant or slice(a, b) call -> ast.Slice"""
+        if isinstance(s, (ast.Name, ast.Call)):
+            v = self.cval(s)
+            if isinstance(v, slice):
+                self.widen('slice object as index')
+                return self.const_to_ast(v, s)
+        return s
 
     def is_np(self, node, *names):
         """node is np.<a>.<b> ..."""
@@ -163,6 +292,9 @@ class Translator:
             return Val(self.scal_text(c), 's')
         if isinstance(node, ast.Name):
             if node.id not in env:
+                lst = self.int_list(node)
+                if lst is not None:
+                    return Val(nat_list(lst), 'i')
                 self.err(node, 'unknown name')
             if env[node.id].stale:
                 self.err(node, 'name read after a view of its buffer was written in place')
@@ -227,16 +359,18 @@ class Translator:
         idx = list(sl.elts) if isinstance(sl, ast.Tuple) else [sl]
         if not idx or not self.full_slice(idx[0]):
             self.err(node, 'first (batch) index must be `:`')
-        idx = idx[1:]
+        idx = [self.norm_index(x) for x in idx[1:]]
         if base.kind == 'v' and len(idx) == 1:
             s = idx[0]
+            if isinstance(s, ast.Name) and s.id in env:
+                if env[s.id].kind != 'i':
+                    self.err(node, 'index name is not an index list')
+                return Val(f'(gather O {base.text} {env[s.id].text})', 'v')
             lst = self.int_list(s)
             if lst is not None:
                 return Val(f'(gather O {base.text} {nat_list(lst)})', 'v')
             if isinstance(s, ast.Name):
-                if s.id not in env or env[s.id].kind != 'i':
-                    self.err(node, 'index name is not an index list')
-                return Val(f'(gather O {base.text} {env[s.id].text})', 'v')
+                self.err(node, 'index name is not an index list')
             if self.rev_slice(s):
                 return Val(f'(rev {base.text})', 'v', base.origin, buf=base.buf)
             if isinstance(s, ast.Slice):
@@ -297,10 +431,10 @@ class Translator:
             self.err(node, 'reshape shape')
         if self.is_np(f, 'concatenate'):
             kw = self.kw(node, {'axis'})
-            if len(node.args) != 1 or not isinstance(node.args[0], ast.List) or \
-                    self.const_num(kw.get('axis')) != 1:
+            elts = self.elements(node.args[0], env) if len(node.args) == 1 else None
+            if elts is None or self.const_num(kw.get('axis')) != 1:
                 self.err(node, 'concatenate form')
-            vals = [self.expr(e, env) for e in node.args[0].elts]
+            vals = [self.expr(e, env) for e in elts]
             if any(v.kind != 'v' for v in vals):
                 self.err(node, 'concatenate of non-vectors')
             return Val('(' + ' ++ '.join(v.text for v in vals) + ')%list', 'v')
@@ -320,9 +454,10 @@ class Translator:
         if self.is_np(f, 'stack'):
             kw = self.kw(node, {'axis'})
             ax = self.const_num(kw.get('axis'))
-            if len(node.args) != 1 or not isinstance(node.args[0], ast.List):
+            elts = self.elements(node.args[0], env) if len(node.args) == 1 else None
+            if elts is None:
                 self.err(node, 'stack form')
-            vals = [self.expr(e, env) for e in node.args[0].elts]
+            vals = [self.expr(e, env) for e in elts]
             lst = '[' + '; '.join(v.text for v in vals) + ']'
             if all(v.kind == 'v' for v in vals) and ax == 2:
                 return Val(f'(stack_cols O {lst})', 'm')
@@ -446,7 +581,94 @@ class Translator:
                 return Val(f'({head} {" ".join(texts)})', 'tuple', origin,
                            tup=[Val('', k) for k in rk[1]])
             return Val(f'({head} {" ".join(texts)})', rk, origin)
+        helper = self.find_helper(f)
+        if helper is not None:
+            return self.inline(node, helper, env)
         self.err(node, 'call not in the grammar')
+
+    def find_helper(self, f):
+        """a private helper the call refers to: closure of the current function,
+        module-level function of the same module, method of the same class"""
+        if isinstance(f, ast.Name):
+            if f.id in self.local_funcs:
+                return ('closure', self.local_funcs[f.id])
+            if f.id in self.here_funcs and f.id not in SIGS and f.id not in self.fn:
+                return ('module', self.here_funcs[f.id])
+        if isinstance(f, ast.Attribute) and isinstance(f.value, ast.Name):
+            if f.value.id == 'functions' and f.attr in self.module_funcs and f.attr not in SIGS \
+                    and f.attr not in self.fn:
+                return ('module', self.module_funcs[f.attr])
+            if f.value.id == 'self' and self.where == 'class' and f.attr in self.class_funcs \
+                    and f.attr not in METHODS:
+                return ('method', self.class_funcs[f.attr])
+        return None
+
+    def inline(self, node, helper, env):
+        """translate the body of a private helper at its call site (its locals get a
+        fresh prefix; a closure sees the caller's names)"""
+        how, fdef = helper
+        if self.depth >= 3:
+            self.err(node, 'helper nesting too deep')
+        a = fdef.args
+        if a.vararg or a.kwarg or a.posonlyargs or fdef.decorator_list:
+            self.err(node, 'helper signature')
+        names = [x.arg for x in a.args] + [x.arg for x in a.kwonlyargs]
+        defaults = dict(zip([x.arg for x in a.args][len(a.args) - len(a.defaults):], a.defaults))
+        defaults.update({x.arg: d for x, d in zip(a.kwonlyargs, a.kw_defaults) if d is not None})
+        if how == 'method':
+            if not names or names[0] != 'self':
+                self.err(node, 'helper method signature')
+            names = names[1:]
+        pos = [x.arg for x in a.args][(1 if how == 'method' else 0):]
+        if len(node.args) > len(pos):
+            self.err(node, 'helper: too many arguments')
+        given = dict(zip(pos, node.args))
+        for k in node.keywords:
+            if k.arg not in names or k.arg in given:
+                self.err(node, f'helper keyword {k.arg}')
+            given[k.arg] = k.value
+        env2 = dict(env) if how == 'closure' else {}
+        for n in names:
+            if n in given:
+                env2[n] = self.expr(given[n], env)
+            elif n in defaults:
+                env2[n] = self.expr(defaults[n], {})
+            else:
+                self.err(node, f'helper: missing argument {n}')
+            if env2[n].kind == 'tuple':
+                self.err(node, 'helper: tuple argument')
+        self.widen(f'private helper {fdef.name} inlined')
+        saved = (self.prefix, self.local_funcs, getattr(self, 'local_names', set()))
+        self.ninline += 1
+        self.prefix = f'h{self.ninline}_'
+        self.depth += 1
+        if how != 'closure':
+            self.local_funcs = {}
+            self.local_names = self.stored_names(fdef)
+        else:
+            self.local_names = self.local_names | self.stored_names(fdef)
+        try:
+            ret = self.block(fdef.body, env2, self.cur_lines, self.cur_outputs)
+            if ret is None or ret.value is None:
+                if how == 'method':
+                    return Val('', 'none')
+                self.err(node, 'helper without return value')
+            if fdef.body[-1] is not ret:
+                self.err(ret, 'helper: return is not the last statement')
+            return self.expr(ret.value, env2)
+        finally:
+            self.prefix, self.local_funcs, self.local_names = saved
+            self.depth -= 1
+
+    @staticmethod
+    def stored_names(fdef):
+        out = {x.arg for x in fdef.args.args + fdef.args.kwonlyargs}
+        for n in ast.walk(fdef):
+            if isinstance(n, ast.Name) and isinstance(n.ctx, (ast.Store, ast.Del)):
+                out.add(n.id)
+            elif isinstance(n, ast.FunctionDef) and n is not fdef:
+                out.add(n.name)
+        return out
 
     def einsum(self, node, env):
         if len(node.args) < 2 or node.keywords or not isinstance(node.args[0], ast.Constant):
@@ -501,6 +723,7 @@ class Translator:
         nm = tgt.value.id
         base = env[nm]
         idx = list(tgt.slice.elts) if isinstance(tgt.slice, ast.Tuple) else [tgt.slice]
+        idx = [self.norm_index(x) for x in idx]
         if not self.full_slice(idx[0]):
             self.err(st, 'in-place: batch index')
         rhs = self.expr(st.value, env)
@@ -523,7 +746,7 @@ class Translator:
 
     def bind(self, lines, env, name, val):
         """emit `let name := val in` and update env"""
-        cn = cname(name)
+        cn = cname(self.prefix + name)
         if val.kind == 'ids':
             env[name] = Val('', 'ids', val.origin)
             return
@@ -538,6 +761,65 @@ class Translator:
             if isinstance(st, ast.Expr) and isinstance(st.value, ast.Constant) and \
                     isinstance(st.value.value, str):
                 continue
+            # closure: remembered, inlined where it is called
+            if isinstance(st, ast.FunctionDef):
+                if st.name in env or st.decorator_list:
+                    self.err(st, 'nested function form')
+                self.local_funcs = dict(self.local_funcs)
+                self.local_funcs[st.name] = st
+                continue
+            if isinstance(st, ast.Pass):
+                continue
+            # x[...] op= e  ==  x[...] = x[...] op e (same buffer) ; x op= e writes x's buffer
+            if isinstance(st, ast.AugAssign) and isinstance(st.target, (ast.Subscript, ast.Name)):
+                import copy
+                load = copy.deepcopy(st.target)
+                for n_ in ast.walk(load):
+                    if isinstance(n_, (ast.Subscript, ast.Name)) and isinstance(n_.ctx, ast.Store):
+                        n_.ctx = ast.Load()
+                new = ast.copy_location(ast.Assign(
+                    targets=[st.target],
+                    value=ast.copy_location(ast.BinOp(left=load, op=st.op, right=st.value), st)), st)
+                self.widen('augmented assignment')
+                if isinstance(st.target, ast.Name):
+                    nm = st.target.id
+                    if nm not in env or env[nm].kind not in 'vm':
+                        self.err(st, 'augmented assignment target')
+                    base = env[nm]
+                    v = self.expr(new.value, env)
+                    if v.kind != base.kind:
+                        self.err(st, 'augmented assignment kinds')
+                    self.note_mutation(base.origin)      # in place: the buffer is written
+                    for n2, v2 in env.items():
+                        if n2 != nm and v2.buf is not None and v2.buf == base.buf:
+                            v2.stale = True
+                    self.bind(lines, env, nm, Val(v.text, base.kind, base.origin, buf=base.buf))
+                    continue
+                st = new
+            # statement call of a private helper (e.g. one that stores the results)
+            if isinstance(st, ast.Expr) and isinstance(st.value, ast.Call) and \
+                    self.find_helper(st.value.func) is not None:
+                self.inline(st.value, self.find_helper(st.value.func), env)
+                continue
+            # P = D if P is None else P  |  P = P if P is not None else D
+            if isinstance(st, ast.Assign) and len(st.targets) == 1 and isinstance(st.targets[0], ast.Name) \
+                    and isinstance(st.value, ast.IfExp) and isinstance(st.value.test, ast.Compare) and \
+                    len(st.value.test.ops) == 1 and isinstance(st.value.test.left, ast.Name) and \
+                    st.value.test.left.id == st.targets[0].id and \
+                    isinstance(st.value.test.comparators[0], ast.Constant) and \
+                    st.value.test.comparators[0].value is None and \
+                    isinstance(st.value.test.ops[0], (ast.Is, ast.IsNot)):
+                p = st.targets[0].id
+                isn = isinstance(st.value.test.ops[0], ast.Is)
+                dflt, keep = (st.value.body, st.value.orelse) if isn else (st.value.orelse, st.value.body)
+                lst = self.int_list(dflt)
+                if p in env and env[p].kind == 'oi' and isinstance(keep, ast.Name) and keep.id == p \
+                        and lst is not None:
+                    self.widen('default order as a conditional expression')
+                    self.index_lists[f'{self.cur}.default_{p}'] = lst
+                    self.bind(lines, env, p, Val(
+                        f'match {env[p].text} with Some o_ => o_ | None => {nat_list(lst)} end', 'i'))
+                    continue
             # if P is None: P = [ints]
             if isinstance(st, ast.If) and isinstance(st.test, ast.Compare) and \
                     isinstance(st.test.left, ast.Name) and len(st.test.ops) == 1 and \
@@ -596,7 +878,7 @@ class Translator:
                 tgt = st.targets[0]
                 if isinstance(tgt, ast.Name):
                     lst = self.int_list(st.value)
-                    if lst is not None and isinstance(st.value, ast.List):
+                    if lst is not None:
                         self.index_lists[f'{self.cur}.{tgt.id}'] = lst
                         self.bind(lines, env, tgt.id, Val(nat_list(lst), 'i'))
                         continue
@@ -609,7 +891,7 @@ class Translator:
                     v = self.expr(st.value, env)
                     if v.kind != 'tuple' or len(v.tup) != len(tgt.elts):
                         self.err(st, 'tuple unpacking')
-                    names = [cname(e.id) for e in tgt.elts]
+                    names = [cname(self.prefix + e.id) for e in tgt.elts]
                     pat = names[0]
                     for n in names[1:]:
                         pat = f'({pat}, {n})'
@@ -663,6 +945,10 @@ class Translator:
         self.cur = fdef.name
         info = self.info = FnInfo()
         env = {}
+        self.local_funcs = {}
+        self.local_names = self.stored_names(fdef)
+        self.prefix = ''
+        self.where = 'class' if is_method else 'functions'
         a = fdef.args
         if a.vararg or a.kwarg or a.posonlyargs:
             self.err(fdef, 'signature')
@@ -690,6 +976,7 @@ class Translator:
                 self.nbuf += 1
                 env[n] = Val(cname(n), k, ('param', n), buf=self.nbuf)
         lines, outputs = [], []
+        self.cur_lines, self.cur_outputs = lines, outputs
         ret = self.block(fdef.body, env, lines, outputs)
         if ret is not None and fdef.body[-1] is not ret:
             self.err(ret, 'return is not the last statement')
@@ -823,10 +1110,18 @@ def translate(repo):
     ff = _find_funcs(tf, FUNCTIONS_ORDER)
     fm = _find_funcs(ts, METHODS, cls='SignalProcessorMixin')
     consumed = {}
+    tr.module_funcs = {n.name: n for n in tf.body if isinstance(n, ast.FunctionDef)}
+    tr.here_funcs = tr.module_funcs
+    tr.load_consts(tf)
     for n in FUNCTIONS_ORDER:
         tr.function(ff[n], False)
         consumed['functions.py:' + n] = hashlib.sha256(
             ast.get_source_segment(src_f, ff[n]).encode()).hexdigest()
+    tr.here_funcs = {n.name: n for n in ts.body if isinstance(n, ast.FunctionDef)}
+    tr.class_funcs = {n.name: n for c_ in ts.body if isinstance(c_, ast.ClassDef)
+                      and c_.name == 'SignalProcessorMixin' for n in c_.body
+                      if isinstance(n, ast.FunctionDef)}
+    tr.load_consts(ts)
     for n in METHODS:
         tr.function(fm[n], True)
         consumed['signal_processor.py:' + n] = hashlib.sha256(
